@@ -86,6 +86,16 @@ Definition C20_aggregate_statement : Prop :=
   forall sec t0 calls, forallb (fun c => is_num (snd c)) calls = true ->
     let r := frun (KAggregate sec) (finit (KAggregate sec) t0) calls in
     sum_outs (fst r) + f_sum (snd r) = sum_calls calls.
+(* ... for ALL call sequences: a string / list handed to aggregate is refused (ValueError in the implementation, no output and no
+   change of state in the model) and is no input: what is delivered, and the state afterwards, are those of the numeric calls alone *)
+Definition numeric_calls (calls : list (Z * fval)) : list (Z * fval) := filter (fun c => is_num (snd c)) calls.
+Definition deliveries (outs : list (option fval)) : list fval := flat_map (fun o => match o with Some y => [y] | None => [] end) outs.
+Definition C20_aggregate_mixed_statement : Prop :=
+  forall sec t0 calls,
+    let r := frun (KAggregate sec) (finit (KAggregate sec) t0) calls in
+    let rn := frun (KAggregate sec) (finit (KAggregate sec) t0) (numeric_calls calls) in
+    snd r = snd rn /\ deliveries (fst r) = deliveries (fst rn) /\
+    sum_outs (fst r) + f_sum (snd r) = sum_calls calls.
 (* consecutive deliveries of throttle are at least `sec` apart (for non-decreasing call times) *)
 Fixpoint delivery_times (calls : list (Z * fval)) (outs : list (option fval)) : list Z :=
   match calls, outs with
